@@ -88,12 +88,13 @@ def opt(x, f=enc_list):
 def gdesc(a):
     a = sparse.csr_matrix(a)
     return {'shape': list(a.shape), 'indptr': a.indptr.tolist(), 'indices': a.indices.tolist(),
-            'data': [float(v) for v in a.data]}
+            'data': [float(v) for v in a.data], 'dtype': str(a.dtype)}
 
 
 def gfrom(d):
-    return sparse.csr_matrix((np.array(d['data'], dtype=float), np.array(d['indices'], dtype=np.int32),
-                              np.array(d['indptr'], dtype=np.int32)), shape=tuple(d['shape']))
+    m = sparse.csr_matrix((np.array(d['data'], dtype=float), np.array(d['indices'], dtype=np.int32),
+                           np.array(d['indptr'], dtype=np.int32)), shape=tuple(d['shape']))
+    return m.astype(np.dtype(d.get('dtype', 'float64')))
 
 
 def canon_partition(labels):
@@ -590,7 +591,21 @@ def graph_stream(ctx):
     out.append(('self-loop-only', mk(3, [(1, 1)], [1.0])))
     z = sparse.csr_matrix((np.array([1., 1., 0.]), (np.array([0, 1, 2]), np.array([1, 0, 0]))), shape=(3, 3))
     out.append(('explicit-zero', z))
-    return out
+    # other dtypes and unsorted column indices (the estimators cast with astype(float) / float32 themselves)
+    res = []
+    for name, a in out:
+        r = rng.random()
+        if r < 0.12:
+            a = a.astype(bool)
+            name += ':bool'
+        elif r < 0.22 and np.all(a.data == np.round(a.data)):
+            a = a.astype(int)
+            name += ':int'
+        elif r < 0.32 and a.nnz > 2:
+            a = graphs.unsorted_copy(a, rng)
+            name += ':unsorted'
+        res.append((name, a))
+    return res
 
 
 def louvain_params(rng, full=False):
@@ -662,7 +677,8 @@ def aggregate_graph_cases(ctx, b, variants=2):
         if mode in ('row+col', 'labels+col'):
             kw['labels_col'] = np.array(lc)
         toks = [opt(None if kw.get(x) is None else kw[x]) for x in ('labels', 'labels_row', 'labels_col')]
-        desc = {'kind': 'aggregate_graph', 'graph': gdesc(b), 'kw': {k: [int(x) for x in v] for k, v in kw.items()}}
+        desc = {'kind': 'aggregate_graph', 'graph': gdesc(b), 'dtype': str(b.dtype),
+                'kw': {k: [int(x) for x in v] for k, v in kw.items()}}
 
         def f():
             m = aggregate_graph(b, **kw)
@@ -673,7 +689,8 @@ def aggregate_graph_cases(ctx, b, variants=2):
             eff_c = lc if 'labels_col' in kw else lr
             t = impl.split(' ')
             spec = 'c05.spec_aggregate_graph %s %s %s %s %s %s %s' % (g, enc_list(lr), enc_list(eff_c), t[1], t[2], t[3], TOL)
-        out.append(Case(('aggregate_graph', g, tuple(toks)), {'entry': 'aggregate_graph', 'mode': mode},
+        out.append(Case(('aggregate_graph', g, tuple(toks)), {'entry': 'aggregate_graph', 'mode': mode,
+                                                               'dtype': str(b.dtype)},
                         'c05.aggregate_graph %s %s' % (g, ' '.join(toks)), impl, spec,
                         impl.startswith('ok') and max(lr) >= 1, desc, canon='agg'))
     return out
@@ -755,7 +772,7 @@ def aggregate_graph_replay(ctx, d):
         lc = kw.get('labels_col', lr)
         t = impl.split(' ')
         spec = 'c05.spec_aggregate_graph %s %s %s %s %s %s %s' % (g, enc_list(lr), enc_list(lc), t[1], t[2], t[3], TOL)
-    return [Case(('aggregate_graph', g, tuple(toks)), {'entry': 'aggregate_graph'},
+    return [Case(('aggregate_graph', g, tuple(toks)), {'entry': 'aggregate_graph', 'dtype': str(b.dtype)},
                  'c05.aggregate_graph %s %s' % (g, ' '.join(toks)), impl, spec, True, d, canon='agg')]
 
 
